@@ -751,9 +751,9 @@ def load_stage(chk, schemas):
             with c14.Faults(mat), rec.active():
                 C._validate, C.keyring.fetch = spy, (lambda: list(keyring))
                 try:
-                    cfg, errs = C.load(list(mat.paths), [sc for sc, _ in these],
+                    cfg, errs = C.load(c14.spelled_paths(stack, mat), [sc for sc, _ in these],
                                        [d for _, d in these]
-                                       + [c14.render_lines(d, 17 + i) for i, d in enumerate(stack["defaults"])],
+                                       + c14.render_defaults(stack),
                                        c14.parse_overrides(stack))
                     out = ("ok", cfg, errs)
                     # what a fresh process would answer: validation of the same raw config against a
